@@ -73,6 +73,25 @@ def run(ctx):
     run_histories_fmt(e, hs, ctx)
     e.count("max_len", L)
     streams.append(e)
+
+    # the reply depends only on the unit and on whether a transfer is open - not on how much time has passed: the same
+    # kind of sequences with pauses anywhere below the inactivity timeout between the units (virtual clock)
+    from harness.props import C05
+    p = Stream("paced-sequences")
+    hs = []
+    for _ in range(6000 if ctx.thorough else 700):
+        timeout = r.choice([15, 15, 60, 5, None])
+        T = 15 if timeout is None else timeout
+        evs, kinds = history(r, r.choice([3, 6, 10, 16]))
+        t, tevs = 0, []
+        for ev in evs:
+            t += r.choice([0, 1, T // 2, T - 4, T - 2, T - 1, r.randrange(0, T)])
+            tevs.append(("r", t, ev[1]) if ev[0] == "d" else ("l", t))
+        tevs.append(("i", t))
+        hs.append((r.choice(["astm", "lis2a", "json"]), timeout, tevs, {"nontrivial": nontrivial(kinds)}))
+        p.count("timeout=%s" % timeout)
+    C05.run_timed(p, hs, ctx)
+    streams.append(p)
     return streams
 
 
